@@ -634,7 +634,8 @@ def shared(ctx, part, nparts):
                                 cmp(ctx, cid, site, dict(PP, j=j), np.asarray(o.data[j])[:3, :3], want, 1, '%s(N x 3)[%d]' % (site, j))
     # AngVec / EulerVec / Exp
     AX = alph.axes(tier, seed)
-    for tn, th in alph.theta_alphabet(tier, seed):
+    # (angles between the landmark neighbours: a "null rotation" guard that is a few decades too wide shows here, above the 1e-6 of this property)
+    for tn, th in list(alph.theta_alphabet(tier, seed)) + [('3e-6', 3e-6), ('1e-5', 1e-5), ('2e-5', 2e-5), ('1e-4', 1e-4), ('pi-1e-5', PI - 1e-5), ('pi-3e-6', PI - 3e-6)]:
         for sg in (1, -1):
             for xn, ax in AX:
                 i += 1
